@@ -822,10 +822,10 @@ def run_tests_ob(P, R, mp, log_dir, bound):
                     if was_run:
                         bad.append(f"--exitfirst: test #{k} is run after test #{stopped_at} failed")
                     continue
-                if has_skip and was_run:
-                    bad.append(f"test #{k} carries @skip and is run")
-                if no_skip and not was_run:
-                    bad.append(f"test #{k} carries no @skip and is not run")
+                if was_run and not no_skip:
+                    bad.append(f"test #{k} is run although " + ("it carries @skip" if has_skip else "one of its markers, which the loop never looked at, may be @skip"))
+                if not was_run and not has_skip:
+                    bad.append(f"test #{k} is not run although " + ("it carries no @skip" if no_skip else "no @skip marker was found on it"))
                 if was_run and res and res[0] == "eq":
                     verdict_fail = (res[1] == FAILED and not is_xfail) or (res[1] == PASSED and is_xfail)
                     failed_any = failed_any or verdict_fail
